@@ -17,6 +17,10 @@ def plan(tier):
           (PG.forced_descendants(2, False, True), 1, dict(kinds=("P",)))]
     if tier == "thorough":
         pl += [(PG.forced(2, False, 3), 2, PT), (PG.forced(2, True, 2), 2, dict(kinds=("P",)))]
+    # source-line granularity (one preemption at any line of loky run by a parent thread)
+    pl += simcheck.line_plan([PG.forced_escalation(2), PG.forced(1, False, 2)])
+    if tier == "thorough":
+        pl += simcheck.line_plan([p for p, _, _ in pl])
     return pl
 
 
